@@ -338,7 +338,7 @@ func c17stripe(c *fw.Ctx, rowLens []int, i int) {
 func runC17(c *fw.Ctx) {
 	idx := 0
 	// Partition
-	maxN := c.Pick(16, 20)
+	maxN := c.Pick(16, 22)
 	for n := 0; n <= maxN; n++ {
 		if c.Begin(idx + n) {
 			var cnt int64
@@ -361,7 +361,7 @@ func runC17(c *fw.Ctx) {
 	}
 	idx += 100
 	// Rotate
-	maxR := c.Pick(400, 1300)
+	maxR := c.Pick(400, 2200)
 	for n := c.Block; n <= maxR; n += c.NBlocks {
 		if c.Begin(idx + n) {
 			var cnt int64
@@ -384,7 +384,7 @@ func runC17(c *fw.Ctx) {
 	}
 	idx += 100
 	// Chunks / Batches
-	maxL := c.Pick(40, 96)
+	maxL := c.Pick(40, 300)
 	for ln := c.Block; ln <= maxL; ln += c.NBlocks {
 		if c.Begin(idx + ln) {
 			var cnt int64
@@ -422,6 +422,40 @@ func runC17(c *fw.Ctx) {
 		c.Evals(cnt)
 		c.Add("extreme_argument_cases", cnt)
 		c.SeenEnum(cnt)
+	}
+	if c.Block == 0 && c.Begin(idx+50) {
+		// nil slices: every function must treat them like empty ones
+		var nilInts []int
+		ok, pv, stack := fw.Try(func() {
+			if got := slice.Partition(nilInts, func(int) bool { return true }); len(got) != 0 {
+				c.Fail(map[string]any{"func": "Partition", "arg": "nil"}, "Partition(nil) = %v", got)
+			}
+			slice.Rotate(nilInts, 0)
+			for n := 0; n <= 3; n++ {
+				if ch := slice.Chunks(nilInts, n); len(ch) > 1 || (len(ch) == 1 && len(ch[0]) != 0) {
+					c.Fail(map[string]any{"func": "Chunks", "arg": "nil", "n": n}, "Chunks(nil, %d) = %v", n, ch)
+				}
+				if b := slice.Batches(nilInts, n); len(b) != 0 {
+					c.Fail(map[string]any{"func": "Batches", "arg": "nil", "n": n}, "Batches(nil, %d) = %v", n, b)
+				}
+				if h, t := slice.Head(nilInts, n), slice.Tail(nilInts, n); len(h) != 0 || len(t) != 0 {
+					c.Fail(map[string]any{"func": "Head/Tail", "arg": "nil", "n": n}, "Head/Tail(nil, %d) = %v %v", n, h, t)
+				}
+			}
+			if slice.PtrAt(nilInts, 0) != nil || slice.PtrAt(nilInts, -1) != nil {
+				c.Fail(map[string]any{"func": "PtrAt", "arg": "nil"}, "PtrAt(nil, i) is not nil")
+			}
+			if len(slice.Stripe([][]int{nil, {1}, nil}, 0)) != 1 || len(slice.Stripe[int]([][]int(nil), 0)) != 0 {
+				c.Fail(map[string]any{"func": "Stripe", "arg": "nil rows"}, "Stripe with nil rows misbehaves")
+			}
+		})
+		if !ok {
+			c.FailKind("panic", map[string]any{"arg": "nil slice"}, "panic on a nil slice: %v\n%s", pv, stack)
+		}
+		if p, _ := fw.Panics(func() { slice.At(nilInts, 0) }); !p {
+			c.Fail(map[string]any{"func": "At", "arg": "nil"}, "At(nil, 0) did not panic")
+		}
+		c.Add("nil_slice_checks", 1)
 	}
 	idx += 100
 	// Head/Tail, At/PtrAt
